@@ -10,10 +10,12 @@ RULE = ("loop-free closed graphs on n<=4 cells (n<=5 thorough) x outlet lists wi
         "areas, hand and depths, through subgrid.ucat_area / ucat_volume / segment_length / segment_average / "
         "segment_median in both directions with and without river masks; random D8 rasters to 8x8 through "
         "FlwdirRaster.ucat_outlets (both methods, cell sizes 1..4; outlet pixels must lie inside their cell, and for "
-        "eam_plus flow into another cell unless a pit), ucat_area, ucat_volume, subgrid_rivlen/rivavg/rivmed; "
+        "eam_plus flow into another cell unless a pit), ucat_area, ucat_volume, subgrid_rivlen/rivavg/rivmed (weights also as a 2-D map), "
+        "subgrid_rivslp in the three directions with all-true (= unmasked) and all-false (slope 0) river masks; arithmetics.lstsq on "
+        "integer points against the exact rational model, also as float32 arrays far from zero (group lstsq-f32); "
         "non-trivial = some catchment has more than one cell")
 ASSUMPTIONS = ["outlet pixels pairwise distinct (documented domain; duplicates are exercised in correspondence only)",
-               "areas / hand / depths are integers in the model; the least-squares kernel is modelled over exact rationals (binary64 results compared to 1e-9), the slope of a whole segment through the API is only called, not compared",
+               "areas / hand / depths are integers in the model; the least-squares kernel is modelled over exact rationals (binary64 results compared to 1e-9), the slope of a whole segment through the API is compared only between masks (all-true mask = unmasked, all-false mask = 0), its value rests on lstsq",
                "the outlet-pixel clause (inside own cell) is checked on the implementation's output here; the theorem is C09's outlet_pixel_spec"]
 
 
